@@ -130,12 +130,12 @@ theorem resample_endpoints (L : Nat) (ys : List Rat) (hn : 2 ≤ ys.length) (hL 
     simp [this]
 
 /-- TSInterpolator on a panel -/
-theorem interpolate_eq_spec (kind : CellKind) (hk : kind ≠ .array) (L : Nat) (hL : 0 < L) (X : Panel)
+theorem interpolate_eq_spec (L : Nat) (hL : 0 < L) (X : Panel)
     (hX : WellShaped X) (hlen : ∀ inst ∈ X, ∀ c ∈ inst, 2 ≤ c.length) :
-    interpolate kind (.int L) X = .ok (Spec.interpolate L X) := by
+    interpolate (.int L) X = .ok (Spec.interpolate L X) := by
   have h1 : ¬ ((L : Int) ≤ 0) := by omega
   have h2 : L ≠ 0 := by omega
-  simp only [interpolate, interpNew, h1, if_false, bind, Except.bind, checkX_ok hX, hk, Int.toNat_natCast]
+  simp only [interpolate, interpNew, h1, if_false, bind, Except.bind, checkX_ok hX, Int.toNat_natCast]
   unfold Spec.interpolate
   apply mapM_except_ok
   intro inst hi
